@@ -376,13 +376,16 @@ def validate_trace(module, cfg, events, workdir, tag, batch=4000, timeout=900, d
     if cur:
         batches.append((cur_idx, cur))
 
+    def lines(ex):
+        # an execution may bring its own Reset event (carrying configuration); otherwise a plain one is added
+        return ex if (ex and ex[0].get("e") == "Reset") else [{"e": "Reset"}] + ex
+
     def check(execs, path):
         with open(path, "w") as f:
             for ex in execs:
-                f.write('{"e":"Reset"}\n')
-                for ev in ex:
+                for ev in lines(ex):
                     f.write(json.dumps(ev, separators=(",", ":")) + "\n")
-        n = sum(len(ex) + 1 for ex in execs)
+        n = sum(len(lines(ex)) for ex in execs)
         r = run_tlc(module, cfg, workers=1, env={"TRACE": path}, timeout=timeout, deque=deque, xmx=xmx,
                     deadlock=False, collect=("MATCHED",))
         matched = 0
@@ -410,16 +413,15 @@ def validate_trace(module, cfg, events, workdir, tag, batch=4000, timeout=900, d
             # the execution that contains trace line matched+1 is not a behaviour of the spec
             acc = 0
             k = start
-            while k < len(execs) and acc + len(execs[k]) + 1 <= matched:
-                acc += len(execs[k]) + 1
+            while k < len(execs) and acc + len(lines(execs[k])) <= matched:
+                acc += len(lines(execs[k]))
                 k += 1
             if k >= len(execs):
                 k = len(execs) - 1
             within = max(0, matched - acc - 1)      # events of execution k that were matched
             p1 = os.path.join(workdir, "%s.rejected_exec%d.ndjson" % (tag, idxs[k]))
             with open(p1, "w") as f:
-                f.write('{"e":"Reset"}\n')
-                for ev in execs[k][:within + 1]:
+                for ev in lines(execs[k])[:within + 2]:
                     f.write(json.dumps(ev, separators=(",", ":")) + "\n")
             rejected.append((idxs[k], within, p1, r["violated"] or "no spec action explains the event"))
             start = k + 1
